@@ -206,9 +206,14 @@ let () =
                   model (DiscHistory.hstep: resize of the caller's buffer + the kernel's writes into it), compared
                   step by step (rows, max_index, checksum) and in full at the end *)
                let hist_keys = ref [] in
-               (match (try Some (get "hist") with Not_found -> None) with
+               (* [field]: the input field with the histories; observation keys <kp><k> / <fp><k>; [cols] columns.
+                  Protein cases and the 16-column layout only have the generic and SSE2 pipelines (kernel id by
+                  gen_pipeline_u8), DNA at 32 columns also AVX2 and the forced arms of the dispatcher *)
+               let run_hists field kp fp colsn =
+               (let cN = nat_of_int colsn in
+                match (try Some (get field) with Not_found -> None) with
                 | None -> ()
-                | Some hs when not protein ->
+                | Some hs ->
                     let sub_list l a b = List.filteri (fun i _ -> i >= a && i < b) l in
                     let motif_variant v = match v with
                       | 1 -> sub_list mat 0 ((m + 1) / 2)
@@ -248,12 +253,17 @@ let () =
                                     (match disc_of mv with
                                      | None -> `Stop "VP"
                                      | Some dv ->
+                                         let simd_ok = (not protein) && colsn = 32 in
                                          let id = match be with
-                                           | "G" -> gen_pipeline_u8 D4Generic | "S" -> gen_pipeline_u8 D4Sse2
-                                           | "A" -> gen_pipeline_u8 D4Avx2 | "g" -> gen_dispatch_u8_x86 D4Generic
-                                           | "s" -> gen_dispatch_u8_x86 D4Sse2 | _ -> gen_dispatch_u8_x86 D4Avx2 in
+                                           | "G" -> Some (gen_pipeline_u8 D4Generic) | "S" -> Some (gen_pipeline_u8 D4Sse2)
+                                           | "A" when simd_ok -> Some (gen_pipeline_u8 D4Avx2)
+                                           | "g" when simd_ok -> Some (gen_dispatch_u8_x86 D4Generic)
+                                           | "s" when simd_ok -> Some (gen_dispatch_u8_x86 D4Sse2)
+                                           | "a" when simd_ok -> Some (gen_dispatch_u8_x86 D4Avx2)
+                                           | _ -> None in
+                                         match id with None -> `Stop "BAD" | Some id ->
                                          let mvl = List.length (motif_variant mv) in
-                                         let sx = striped k5 c32 (configure_wrap_of (nat_of_int mvl)) (List.map nat_of_int (seq_variant sv)) in
+                                         let sx = striped k5 cN (configure_wrap_of (nat_of_int mvl)) (List.map nat_of_int (seq_variant sv)) in
                                          let c = { hc_id = id; hc_dm = dv; hc_pads = pads; hc_seq = sx } in
                                          if rg = "F" then `Op (HScoreInto c)
                                          else (match List.map int_of_string (split ':' rg) with
@@ -263,12 +273,12 @@ let () =
                               match op, !buf with
                               | `Stop w, _ -> obs := w :: !obs; cut := true
                               | `Op o, Some b ->
-                                  (match hstep gen_avx2_u8 gen_neon_u8 c32 o b with
+                                  (match hstep gen_avx2_u8 gen_neon_u8 cN o b with
                                    | Ok b' -> buf := Some b'; obs := digest b' :: !obs
                                    | _ -> obs := "P" :: !obs; cut := true)
                               | _, None -> cut := true
                             end) (String.split_on_char ';' hist);
-                        let hk = Printf.sprintf "h%d" k and hfk = Printf.sprintf "hf%d" k in
+                        let hk = Printf.sprintf "%s%d" kp k and hfk = Printf.sprintf "%s%d" fp k in
                         let impl = oget hk in
                         (* a pipeline that does not exist on this host ends the observed history with `U` *)
                         let unavailable = String.length impl > 0 && impl.[String.length impl - 1] = 'U' in
@@ -276,19 +286,22 @@ let () =
                         if not unavailable then begin
                           cmp hk (String.concat ";" (List.rev !obs));
                           cmp hfk (if !cut then "P" else match !buf with Some b -> show_scores (Ok b) | None -> "P");
+                          if oget hk = "?" then set_df (Printf.sprintf "property-not-checked:%s-not-observed" hk);
                           (* the final buffer of a complete history is the score of the main motif on the main
                              sequence: one more source of byte scores for the property check below *)
                           if not !cut then hist_keys := hfk :: !hist_keys
                           else skip (hk ^ ":history-ends-with-a-panic(as-modelled)")
                         end) (String.split_on_char '|' hs)
-                | Some _ -> set_df "property-not-checked:histories-are-not-modelled-for-protein-cases");
+               ) in
+               run_hists "hist" "h" "hf" 32;
+               run_hists "hist16" "h16_" "hf16_" 16;
                (* the property on the implementation's numbers *)
                (* byte score of position i in an observed score matrix: the extracted StripedScores Index<usize>
                   (DiscModel.sc_index) on the observed cells *)
                let u8s_of key =
                  if key = "ds" then (try Some (List.map int_of_string (split ',' (oget "ds"))) with _ -> None)
                  else
-                   let cols = if key = "g16" || key = "s16" then 16 else 32 in
+                   let cols = if key = "g16" || key = "s16" || (String.length key > 5 && String.sub key 0 5 = "hf16_") then 16 else 32 in
                    match parse_scores (oget key) with
                    | Some (rows, mx, cells) when rows > 0 && Array.length cells = rows * cols ->
                        let sc = { sc_rows = List.init rows (fun r -> List.init cols (fun c -> z_of_int cells.(r * cols + c)));
